@@ -187,8 +187,30 @@ def rule_B1(run, prog):
     kdel, env = pat.find(tx, "del self.manager.basis_registered[$BB]", env)
     ob("eigenbasis_of.__exit__", kdel is not None, "registry-deleted",
        "__exit__ must delete the registry of the basis it leaves, unconditionally", ext)
-    ob("eigenbasis_of.__exit__", "self.manager.remove_current_basis_operator()" in tx, "basis-op-removed",
-       "__exit__ must remove the current basis operator", ext)
+    # the operator that defines the current basis is part of the bookkeeping that must be "back in its previous state":
+    # __enter__ saves what the manager held (one slot per entry: a context object can be entered again) before it
+    # stores its own operator, __exit__ hands the saved one back; creating a context object changes nothing
+    init_ = prog.func(MGR + "eigenbasis_of.__init__")
+    touches_early = [norm(n_) for n_ in ast.walk(init_.node) if isinstance(n_, ast.Call)
+                     and call_name(n_) in ("store_current_basis_operator", "remove_current_basis_operator")]
+    ob("eigenbasis_of.__init__", not touches_early, "basis-op-at-entry",
+       "creating the context object already changes the manager's current basis operator (%s): with context objects "
+       "created ahead of entry the wrong operator is recorded" % touches_early, init_)
+    saved = None
+    for n_ in walk_no_nested(ent.node):
+        if isinstance(n_, ast.Call) and isinstance(n_.func, ast.Attribute) and n_.func.attr == "append" and n_.args \
+                and norm(n_.args[0]) == "self.manager.current_basis_operator":
+            saved = norm(n_.func.value)
+    stores = [n_ for n_ in walk_no_nested(ent.node) if isinstance(n_, ast.Call) and call_name(n_) == "store_current_basis_operator"
+              and [norm(a_) for a_ in n_.args] == ["self.op"]]
+    ob("eigenbasis_of.__enter__", saved is not None and len(stores) == 1, "basis-op-saved",
+       "__enter__ must save the manager's current basis operator (per entry) and then store its own", ent)
+    restored = saved is not None and any(isinstance(n_, ast.Call) and call_name(n_) == "store_current_basis_operator"
+                                         and [norm(a_) for a_ in n_.args] == ["%s.pop()" % saved] for s_ in tl for n_ in ast.walk(s_))
+    wiped = any(isinstance(n_, ast.Call) and call_name(n_) == "remove_current_basis_operator" for n_ in ast.walk(ext.node))
+    ob("eigenbasis_of.__exit__", restored and not wiped, "basis-op-restored",
+       "__exit__ must hand back the basis operator that was current before the context was entered (unconditionally, at "
+       "the top level of __exit__); clearing it leaves the enclosing context without its operator", ext)
     # restore loop
     loops = [s for s in tl if isinstance(s, ast.For)]
     ok_loop = False
